@@ -80,17 +80,7 @@ def _catch(ctx, f):
     except BaseException as e:
         if ctx.dead is not None:
             raise ctx.dead
-        if type(e) is NameError and "is not defined" in str(e) and getattr(e, "name", None) and _in_code_under_test(e):
-            # the extracted code referred to a global the sidecar's environment does not supply (e.g. a module imported by a refactoring):
-            # no contract applies - undecided, never a verdict about the code
-            ctx.unsupported(f"code no longer matches the sidecar's contracts: {e}")
-        if type(e) is AttributeError and _is_sidecar_object(getattr(e, "obj", None)) and _in_code_under_test(e):
-            # the code used a stub / proxy of the sidecar in a way its contract does not describe (a method the stub does not model)
-            ctx.unsupported(f"code no longer matches the sidecar's contracts: {e}")
-        if type(e) is TypeError and _in_code_under_test(e) and any(w in str(e) for w in ("unexpected keyword argument", "required positional argument", "required keyword-only argument",
-                                                                                            "positional arguments but", "positional argument but", "multiple values for argument")):
-            # a callee was invoked with another signature than the one its contract describes (new / renamed / reordered parameter)
-            ctx.unsupported(f"code no longer matches the sidecar's contracts: {e}")
+        ctx.classify(e)
         return "raise", e
 
 
@@ -532,7 +522,7 @@ def _replay16(ob=None):
 
     from ujvc.z3env import REPO_SRC
 
-    p = subprocess.run(["/venv/bin/python", "-c", C16_SCRIPT], env=dict(os.environ, PYTHONPATH=REPO_SRC), capture_output=True, text=True, timeout=300)
+    p = __import__('ujvc.units', fromlist=['run_native_p']).run_native_p(["/venv/bin/python", "-c", C16_SCRIPT], env=dict(os.environ, PYTHONPATH=REPO_SRC), timeout=300)
     return {"reproduced": p.returncode == 1, "detail": (p.stdout + p.stderr)[-3000:], "script": C16_SCRIPT, "rc": p.returncode}
 
 
